@@ -563,8 +563,11 @@ def check_step(run, last_op, pending):
                if (src is None or pre + t.source.split(sep) == src) and
                (dst is None or (t.dest is not None and pre + t.dest.split(sep) == dst))]
         if sorted(map(id, got)) != sorted(map(id, exp)):
-            sig = KNOWN_TRANSITIONS_SIG if any_local and all(id(t) in [id(x) for x in got] for t in exp if True) and \
-                all(pre for pre, _e, t in table if id(t) in set(map(id, got)) - set(map(id, exp))) else None
+            # structural condition of the finding: every transition that is wrongly listed / wrongly left out was
+            # declared locally, in the scope of a nested state
+            local_ids = set(id(t) for pre, _e, t in table if pre)
+            wrong = set(map(id, got)) ^ set(map(id, exp))
+            sig = KNOWN_TRANSITIONS_SIG if wrong and wrong <= local_ids else None
             bad('monitor', 'get_transitions-filter-not-exact', sig, source=src, dest=dst,
                 got=[(t.source, t.dest) for t in got], expected=[(t.source, t.dest) for t in exp])
             break
@@ -591,7 +594,7 @@ def run_case(case):
     """runs the case on the real classes; returns (failures, facts, pending driver requests with observations)"""
     run = HRun(case)
     pending = []
-    facts = {'steps': 0, 'construction_error': 0, 'custom_sep': int(case['sep'] != '_'), 'known': 0}
+    facts = {'steps': 0, 'construction_error': 0, 'custom_sep': int(case['sep'] != '_'), 'known': 0, 'fired': 0}
     if run.error:
         facts['construction_error'] = 1
         return [], facts, pending
@@ -599,12 +602,18 @@ def run_case(case):
     for k, op in enumerate(case['ops']):
         r = run.do(op)
         facts['steps'] += 1
-        if r[0] == 'raised' and op[0] == 'model':
-            spec = case['models'][op[1]]
-            wrapper_clash = case['sep'] != '_' and any(n.startswith(('is_', 'to_')) for n, _l, _k in spec)
-            fails.append(('monitor', 'add_model-raises', {'step': k, 'op': op, 'error': r[1:]},
-                          KNOWN_WRAPPER_SIG if wrapper_clash and r[1] == 'AttributeError' and "'add'" in r[2]
-                          else 'C11.nested.add_model-raises'))
+        facts['fired'] += int(r == ('ret', True) or (op[0] == 'to' and r == ('ok',)))
+        if r[0] == 'raised' and op[0] in ('model', 'state', 'trans', 'local'):
+            # a valid reconfiguration call must not raise.  Structural condition of the wrapper finding: custom
+            # separator and either a model attribute named like an is_/to_ helper of a top-level state
+            # (`.add` on something that is no FunctionWrapper) or model_override (the wrapper was never bound)
+            specs = [case['models'][i] for i in (run.registered + ([op[1]] if op[0] == 'model' else []))]
+            named = any(n.startswith(('is_', 'to_')) for spec in specs for n, _l, _k in spec)
+            wrapper = case['sep'] != '_' and op[0] in ('model', 'state') and (
+                (r[1] == 'AttributeError' and "'add'" in r[2] and named) or
+                (r[1] == 'AssertionError' and 'nested path' in r[2] and (case['override'] or named)))
+            fails.append(('monitor', 'reconfiguration-raises', {'step': k, 'op': op, 'error': r[1:]},
+                          KNOWN_WRAPPER_SIG if wrapper else 'C11.nested.reconfiguration-raises'))
             break
         try:
             fs = check_step(run, op, pending)
@@ -615,7 +624,10 @@ def run_case(case):
             fs = [('monitor', 'introspection-raised', {'error': type(e).__name__, 'where': traceback.format_exc()[-700:]},
                    'C11.nested.introspection-raised')]
         if fs:
+            quiet = all(sig in (KNOWN_TRIGGERS_SIG, KNOWN_TRANSITIONS_SIG) for _k, _w, _d, sig in fs)
             for kind, what, details, sig in fs[:3]:
-                fails.append((kind, what, dict(details, step=k, op=op), sig))
-            break
+                if not any(f[3] == sig and sig in (KNOWN_TRIGGERS_SIG, KNOWN_TRANSITIONS_SIG) for f in fails):
+                    fails.append((kind, what, dict(details, step=k, op=op), sig))
+            if not quiet:
+                break       # (the two query findings change nothing: the history goes on)
     return fails, facts, pending
